@@ -5,6 +5,8 @@ round trip keeps the core (the data of `IsoM`) and the extension state (`normM` 
 -/
 import IrVerif.Lemmas.ScopeExtModel
 import IrVerif.Lemmas.ScopeExtFuncDeser
+import IrVerif.Lemmas.ScopeExtModelDev
+import IrVerif.Lemmas.ScopeExtFuncDevCert
 namespace IrVerif.Scope
 
 /-- **idempotence for extended models with functions**: deserialize, serialize (raises only for a device
@@ -39,6 +41,27 @@ theorem roundtrip_extM (ver : Option Int) (p : ModelE) (w : MWorldE) (hd : deser
   rcases reloadableME_ser ver w h with ⟨w1, Q, hs⟩ | ⟨e, he⟩
   · obtain ⟨D, σ, hD, r⟩ := reloadableME_roundtrip_iso ver w h w1 Q hs
     exact .inr ⟨w1, Q, D, σ, hs, hD, r⟩
+  · exact .inl ⟨e, he⟩
+
+/-- the round trip of a DESERIALIZED extended model with functions, with the device configurations: when they are
+    written (IR version gate open), serialization raises for a device configuration, or the reloaded model is the
+    source up to the renaming `σ` and every reloaded node (main graph, nested graphs, function bodies) carries the
+    source device configurations with the sharding values renamed by `σ` (BY IDENTITY) -/
+theorem roundtrip_extM_devs (ver : Option Int) (hgate : ver = none ∨ ∃ v, ver = some v ∧ ¬ v < 11) (p : ModelE)
+    (w : MWorldE) (hd : deserializeME p = .ok w) :
+    (∃ e, serializeME ver w = .error (.dev e)) ∨
+    ∃ (w1 : MWorldE) (Q : ModelE) (D : MWorldE) (σ : Nat → Nat),
+      serializeME ver w = .ok (w1, Q) ∧ deserializeME Q = .ok D ∧
+      TreeIsoG w.st.vals σ w.root D.root ∧ TreeIsoFs w.st.vals σ w.funcs D.funcs ∧
+      (∀ a ∈ domM w.core, ∀ b ∈ domM w.core, σ a = σ b → a = b) ∧
+      DevIsoM w.ext D.ext σ w D := by
+  have h := deserializeME_reloadableME p w hd
+  rcases reloadableME_ser ver w h with ⟨w1, Q, hs⟩ | ⟨e, he⟩
+  · obtain ⟨D, B, hD, hrs, hk, ht, htf, _, _, _, _, hdev⟩ :=
+      reloadableME_roundtrip_devs ver hgate w h (deserializeME_devCert p w hd) w1 Q hs
+    have hkeys : ∀ v ∈ domM w.core, v ∈ B.map (·.1) := fun v hv => hk ▸ hv
+    exact .inr ⟨w1, Q, D, sig B, hs, hD, TreeRelG.iso _ B _ _ ht, TreeRelFs.iso _ B _ _ htf,
+      fun a ha b hb he => hrs.sig_inj (hkeys a ha) (hkeys b hb) he, hdev⟩
   · exact .inl ⟨e, he⟩
 
 end IrVerif.Scope
